@@ -479,3 +479,11 @@ func pullSched(c ctor) {
 	kit.Observe("q=%d %q", q, got)
 	kit.Must("Close", func() { _ = s.Close() })
 }
+
+// Bodies re-run by C11 under the race-instrumented build.
+var RaceBodies = map[string]func(){
+	"c02-pair-inproc":  func() { pairInproc(pair.NewSocket) },
+	"c02-xpair-inproc": func() { pairInproc(xpair.NewSocket) },
+	"c02-push-sched":   func() { pushSched(push.NewSocket) },
+	"c02-pull-sched":   func() { pullSched(pull.NewSocket) },
+}
